@@ -399,10 +399,23 @@ func (ex *Exec) evalSpec(env *SpecEnv, e *SExpr) Val {
 		var pats [][]*Term
 		for _, p := range e.Pats {
 			var pt []*Term
+			clean := true
 			for _, x := range p {
-				pt = append(pt, ex.evalSpec(ne, x).L...)
+				for _, t := range ex.evalSpec(ne, x).L {
+					if patternOK(t) {
+						pt = append(pt, t)
+					} else {
+						clean = false
+						// decompose into alternative single-term patterns
+						for _, sub := range patternParts(t, bvs) {
+							pats = append(pats, []*Term{sub})
+						}
+					}
+				}
 			}
-			pats = append(pats, pt)
+			if clean && len(pt) > 0 {
+				pats = append(pats, pt)
+			}
 		}
 		return bval(Quant(e.Op, bvs, body, pats...))
 	case "call":
@@ -429,6 +442,8 @@ func (ex *Exec) evalIdent(env *SpecEnv, name string) Val {
 		return ex.rangeIndex(env)
 	case "$seen":
 		return ex.rangeSeen(env)
+	case "$range":
+		return ex.rangeSlice(env)
 	}
 	if c, ok := ex.localByName(env, name); ok {
 		return env.st.cells[c]
@@ -502,6 +517,26 @@ func (ex *Exec) rangeIndex(env *SpecEnv) Val {
 		}
 	}
 	sfail("$i: loop is not a range over a slice")
+	return Val{}
+}
+
+// rangeSlice returns the slice value a `range` loop iterates over.
+func (ex *Exec) rangeSlice(env *SpecEnv) Val {
+	if env.frame == nil || env.loopHdr == nil {
+		sfail("$range outside a loop clause")
+	}
+	for _, ins := range env.loopHdr.Instrs {
+		if b, ok := ins.(*ssa.BinOp); ok {
+			if c, ok := b.Y.(*ssa.Call); ok {
+				if bi, ok := c.Call.Value.(*ssa.Builtin); ok && bi.Name() == "len" {
+					if v, ok := env.frame.regs[c.Call.Args[0]]; ok {
+						return v
+					}
+				}
+			}
+		}
+	}
+	sfail("$range: loop is not a range over a slice")
 	return Val{}
 }
 
@@ -996,4 +1031,73 @@ func (ex *Exec) loopEnv(fr *Frame, h *ssa.BasicBlock, st *State, li *loopInfo) *
 		}
 	}
 	return env
+}
+
+var nonPatternOps = map[string]bool{"and": true, "or": true, "not": true, "ite": true, "=": true, "<=": true, "<": true, "=>": true,
+	"+": true, "-": true, "*": true, "/": true, "div": true, "mod": true, "to_real": true, "to_int": true, "forall": true, "exists": true,
+	"true": true, "false": true, "int": true, "real": true, "store": true}
+
+func patternOK(t *Term) bool {
+	if t.op == "bound" || t.op == "const" {
+		return t.op == "const" || true
+	}
+	if nonPatternOps[t.op] {
+		return false
+	}
+	for _, a := range t.args {
+		if a.op == "int" || a.op == "real" {
+			continue
+		}
+		if !patternOK(a) {
+			return false
+		}
+	}
+	return true
+}
+
+func mentionsAll(t *Term, bvs []*Term) bool {
+	found := map[*Term]bool{}
+	var walk func(x *Term)
+	seen := map[int]bool{}
+	walk = func(x *Term) {
+		if seen[x.id] {
+			return
+		}
+		seen[x.id] = true
+		if x.op == "bound" {
+			found[x] = true
+		}
+		for _, a := range x.args {
+			walk(a)
+		}
+	}
+	walk(t)
+	for _, b := range bvs {
+		if !found[b] {
+			return false
+		}
+	}
+	return true
+}
+
+// patternParts returns maximal pattern-friendly sub-terms of t that mention every bound variable.
+func patternParts(t *Term, bvs []*Term) []*Term {
+	var out []*Term
+	seen := map[int]bool{}
+	var walk func(x *Term)
+	walk = func(x *Term) {
+		if seen[x.id] {
+			return
+		}
+		seen[x.id] = true
+		if x.op != "bound" && x.op != "const" && len(x.args) > 0 && patternOK(x) && mentionsAll(x, bvs) {
+			out = append(out, x)
+			return
+		}
+		for _, a := range x.args {
+			walk(a)
+		}
+	}
+	walk(t)
+	return out
 }
